@@ -32,7 +32,7 @@ PROPS = {
             "trivial": lambda op, res: False},
     "C14": {"shared": ["Prims"], "gens": ["C14", "C13"], "rule": "wif.enc/dec over scalars with leading zeros x both flags x network bytes; each checksum bit, marker values 0/2/255, decoded lengths 28..46; addr for every version byte; hash helpers on padding-edge lengths vs independent Lean SHA-256/RIPEMD-160.",
             "trivial": lambda op, res: False},
-    "C15": {"shared": ["Prims"], "gens": ["C15", "C08", "C04"], "rule": "all decoders on the negative generators of C05/C06/C08/C11/C12/C13/C14/C07 plus raw fuzz (lengths 0..300, structured prefixes), non-UTF-8 text, 4 nil/non-nil envelope combinations x malformed hex; a Go panic is reported as `panic` and never matches the model.",
+    "C15": {"shared": ["Prims"], "gens": ["C15", "C08", "C04", "C01", "C03", "C05", "C06", "C11", "C12", "C13", "C14", "C20"], "rule": "all decoders on the negative generators of C05/C06/C08/C11/C12/C13/C14/C07 plus raw fuzz (lengths 0..300, structured prefixes), non-UTF-8 text, 4 nil/non-nil envelope combinations x malformed hex; a Go panic is reported as `panic` and never matches the model.",
             "trivial": lambda op, res: False},
     "C16": {"extra": [mem_sweep], "rule": "heap-model ops (mem.*) comparing the whole backing array after the call, plus a reflection sweep over every exported function with canary-filled slice windows (spare capacity 0..64), deep-copied big.Int/key/signature twins and a repeated call.",
             "trivial": lambda op, res: False},
@@ -44,7 +44,7 @@ PROPS = {
             "trivial": lambda op, res: False},
     "C20": {"shared": ["Prims"], "gens": ["C20", "C03", "C01J"], "rule": "(plus the C03 verify stream: IsValid inherits Signature.Verify) env.new on payloads from a JSON value grammar (quotes, backslashes, control and non-ASCII characters, <>&, nesting, numbers) incl. validity after marshal/unmarshal; env.valid over 3 mime types, every payload character altered, r+-1, s+-1, N-s twin, swapped key, 4 present/absent combinations x valid/malformed hex.",
             "trivial": lambda op, res: False},
-    "C09": {"extra": [wrap_search], "gens": ["C09", "C01", "C01J"], "rule": "field.* ops through build-tag hooks on word vectors at 0/1/prime-word/mask boundaries and magnitude limits, vs the Lean definitions regenerated from bec/field.go.",
+    "C09": {"extra": [wrap_search], "gens": ["C09", "C10", "C01", "C01J"], "rule": "field.* ops through build-tag hooks on word vectors at 0/1/prime-word/mask boundaries and magnitude limits, vs the Lean definitions regenerated from bec/field.go.",
             "trivial": lambda op, res: False},
     "C10": {"rule": "field.normalise/setbytes/putbytes on vectors with value P-1, P, P+1, 2^256-1, carry into bit 256, words at 0/max/prime-word boundaries, vs the regenerated Lean definitions.",
             "trivial": lambda op, res: False},
